@@ -988,6 +988,18 @@ func (p *pkg) httpFacts() {
 		nilOps = strings.Contains(t, "==nil{") && (strings.Contains(t, "singleQuery==nil") || strings.Contains(t, "operation==nil") || strings.Contains(t, "op==nil"))
 	}
 	emit("def parseRejectsNullOperations : Bool := %s", leanBool(nilOps))
+
+	// formatErrorsWithCode: a list contributes its entries, anything else one graphql error; every entry that is not a
+	// graphql error is rewritten as one carrying its message; the rewritten list is what is returned
+	fe := p.funcs["formatErrorsWithCode"]
+	fmtOK := false
+	if fe != nil {
+		t := p.norm(fe.Body)
+		fmtOK = strings.Contains(t, "if!errors.As(err,&errList){errList=graphql.ErrorList{graphql.NewError(code,err.Error()),}}") &&
+			strings.Contains(t, "for_,entry:=rangeerrList{ifentry==nil{continue}if_,ok:=entry.(*graphql.Error);!ok{entry=graphql.NewError(code,entry.Error())}formatted=append(formatted,entry)}") &&
+			strings.Contains(t, `returnmap[string]interface{}{"data":data,"errors":formatted,}`)
+	}
+	emit("def httpErrorsKeepMessages : Bool := %s", leanBool(fmtOK))
 }
 
 // ---------------------------------------------------------------- internal.go
